@@ -3,6 +3,8 @@
 import RpylibModel.Basic.Proto
 import RpylibModel.Proofs.C01
 import RpylibModel.Proofs.C02
+import RpylibModel.Proofs.C03
+import RpylibModel.Proofs.C04
 import RpylibModel.Proofs.C05
 import RpylibModel.Proofs.C06
 import RpylibModel.ProofsGen.C06Budget
